@@ -43,8 +43,9 @@ def _project():
 
 
 class _Routing(object):
-    def __init__(self, routes):
+    def __init__(self, routes, chain=0):
         self.routes = routes
+        self.tables = _chain(routes, chain)
 
     def __enter__(self):
         self.old = mbase.get_database_for_model_name
@@ -146,7 +147,8 @@ CLASSES = [_class(i) for i in range(3)]
 
 class _Router(object):
     """A database router driven by a routing table: 0 / 1 = the model lives on that alias only,
-    2 = no opinion (Django then allows it everywhere)."""
+    2 = no opinion (Django then asks the next router; allowed everywhere if nobody objects),
+    3 = refused on every alias."""
 
     def __init__(self, routes):
         self.routes = routes
@@ -155,6 +157,8 @@ class _Router(object):
         r = self.routes[[n.lower() for n in MODELS].index(model_name)]
         if r == 2:
             return None
+        if r == 3:
+            return False
         return ALIASES[r] == db
 
 
@@ -162,8 +166,9 @@ class _Env(object):
     """Real django.db.router with the table-driven router; app lookup helpers return the three
     model classes above (no installed app is needed)."""
 
-    def __init__(self, routes):
+    def __init__(self, routes, chain=0):
         self.routes = routes
+        self.tables = _chain(routes, chain)
 
     def __enter__(self):
         self.saved = (cdb.get_models, cdb.get_app_label, sigmod.get_models, sigmod.get_app_label,
@@ -173,7 +178,7 @@ class _Env(object):
         cdb.get_app_label = sigmod.get_app_label = lambda app: 'vapp16'
         sigmod.get_legacy_app_label = lambda app: 'vapp16'
         sigmod.get_app_upgrade_info = lambda app, **kw: {'upgrade_method': None}
-        _ddb.router.__dict__['routers'] = [_Router(self.routes)]
+        _ddb.router.__dict__['routers'] = [_Router(t) for t in self.tables]
         return self
 
     def __exit__(self, *a):
@@ -186,17 +191,45 @@ class _Env(object):
         return False
 
 
-def _allowed(routes, i, database):
-    return routes[i] == 2 or routes[i] == database
+def _chain(routes, chain):
+    """Router chains (settings.DATABASE_ROUTERS) built from one routing table:
+    0 = one router; 1 / 2 = the opinions on models {0, 2} and on model {1} are held by two
+    routers (either order) that have no opinion on the other models; 3 = a refuse-everything
+    router after the real one; 4 = a no-opinion router before the real one."""
+    routes = list(routes)
+    even = [routes[i] if i != 1 else 2 for i in range(3)]
+    odd = [routes[i] if i == 1 else 2 for i in range(3)]
+    if chain == 1:
+        return [even, odd]
+    if chain == 2:
+        return [odd, even]
+    if chain == 3:
+        return [routes, [3, 3, 3]]
+    if chain == 4:
+        return [[2, 2, 2], routes]
+    return [routes]
+
+
+def _allowed(routes, i, database, chain=0):
+    """Django's documented router semantics: the first router with an opinion decides, and a
+    model nobody has an opinion on is allowed."""
+    for table in _chain(routes, chain):
+        r = table[i]
+        if r == 2:
+            continue
+        if r == 3:
+            return False
+        return r == database
+    return True
 
 
 def h_installable(r0: int, r1: int, r2: int, has0: bool, has1: bool, has2: bool,
-                  database: int) -> bool:
+                  database: int, chain: int) -> bool:
     """db_get_installable_models_for_app (what EvolveAppTask creates tables for): exactly the
     models the router allows on the evolved database whose table is not there yet.
 
-    pre: 0 <= r0 <= 2 and 0 <= r1 <= 2 and 0 <= r2 <= 2 and 0 <= database <= 1
-    pre: not hx.excluded(r0, r1, r2, has0, has1, has2, database)
+    pre: 0 <= r0 <= 2 and 0 <= r1 <= 2 and 0 <= r2 <= 2 and 0 <= database <= 1 and 0 <= chain <= 4
+    pre: not hx.excluded(r0, r1, r2, has0, has1, has2, database, chain)
     post: _
     """
     routes = [r0, r1, r2]
@@ -205,9 +238,9 @@ def h_installable(r0: int, r1: int, r2: int, has0: bool, has1: bool, has2: bool,
     for i in range(3):
         if has[i]:
             state.add_table('t%d' % i)
-    with _Env(routes):
+    with _Env(routes, chain):
         got = cdb.db_get_installable_models_for_app(None, state)
-    expect = [CLASSES[i] for i in range(3) if not has[i] and _allowed(routes, i, database)]
+    expect = [CLASSES[i] for i in range(3) if not has[i] and _allowed(routes, i, database, chain)]
     ok = len(got) == len(expect)
     if ok:
         for a, b in zip(got, expect):
@@ -215,19 +248,19 @@ def h_installable(r0: int, r1: int, r2: int, has0: bool, has1: bool, has2: bool,
     return hx.verdict(ok, True)
 
 
-def h_from_app(r0: int, r1: int, r2: int, database: int) -> bool:
+def h_from_app(r0: int, r1: int, r2: int, database: int, chain: int) -> bool:
     """AppSignature.from_app(app, database) (the signature recorded for a database) lists exactly
     the models the router allows on that database.
 
-    pre: 0 <= r0 <= 2 and 0 <= r1 <= 2 and 0 <= r2 <= 2 and 0 <= database <= 1
-    pre: not hx.excluded(r0, r1, r2, database)
+    pre: 0 <= r0 <= 2 and 0 <= r1 <= 2 and 0 <= r2 <= 2 and 0 <= database <= 1 and 0 <= chain <= 4
+    pre: not hx.excluded(r0, r1, r2, database, chain)
     post: _
     """
     routes = [r0, r1, r2]
-    with _Env(routes):
+    with _Env(routes, chain):
         app_sig = AppSignature.from_app(None, ALIASES[database])
     got = [ms.model_name for ms in app_sig.model_sigs]
-    expect = [MODELS[i] for i in range(3) if _allowed(routes, i, database)]
+    expect = [MODELS[i] for i in range(3) if _allowed(routes, i, database, chain)]
     return hx.verdict(got == expect and app_sig.app_id == 'vapp16', True)
 
 
